@@ -36,18 +36,16 @@ sizes inferred from what it wipes; 96 KiB stacks; a per-case watchdog. Eleven ea
 the end, except changes that need input/output arguments of one call to overlap, signal-handler re-entrancy, fork during a call, or
 big-endian hardware, which are considered outside the contract - do not propose those.'''
 THEMES = [
- ('what a conforming dependency may do that a monitor might not', 'behaviour the injected functions are allowed to show (return values, what they write where within their buffers, block sizes and alignment, being called with zero lengths, being slow, keeping pointers only during the call) on which a changed library could come to depend'),
- ('what the library writes into caller memory', 'output buffers and out-parameters on success AND failure: bytes behind the terminator, partial results, key_out, storage, lang_out, seed_out, the order of writes relative to reads of other arguments that do not overlap'),
- ('state that survives between calls', 'anything that makes the n-th call differ from the first: counters, caches, memoisation, lazily built tables that are correct but built from the first call\'s arguments, pointers remembered from an earlier call, behaviour after an error or after polyseed_free(NULL)'),
- ('specific data', 'particular words, word pairs, languages, coin values, birthdays, feature combinations or secrets with a STRUCTURAL reason to be special (shared words between lists, words that are prefixes after accent stripping, the longest/shortest words, indices 0/1023/1024/2047, all-equal coefficients) that a rewritten algorithm could mishandle'),
- ('encrypted seeds end to end', 'the encryption flag and mask through encode/decode/store/load/keygen/crypt chains, double encryption, decrypting with an equivalent password spelling, encrypted seeds with user features, feature queries on encrypted seeds'),
- ('time and birthdays', 'the arithmetic from clock value to birthday and back, month boundaries, the ends of the range, clocks that return the same value twice, leap years, 2038, the libc fall-back'),
- ('performance cliffs that become hangs', 'inputs on which a rewritten routine becomes quadratic or worse, or loops until an 8/16/32-bit counter wraps, so that a call takes minutes although it terminates'),
- ('the language registry', 'polyseed_get_num_langs/get_lang/get_lang_name(_en), order and identity of languages, pointers returned, the language object passed back in, lang_out, comparing languages by pointer versus by content'),
- ('storage format details', 'the 32-byte image: every bit of header, flags, padding, footer, the check value, which deviations map to FORMAT versus CHECKSUM versus UNSUPPORTED, images that are valid for one feature mask and not another, store after crypt'),
- ('compiler-version and optimisation sensitivity', 'code that is correct C but whose observable behaviour (wiping, evaluation order of reads, volatile use, inline asm barriers, builtins, vectorisation, tail calls) differs between the optimisation levels and compilers listed and the ones users build with (-O2 -flto -fPIC shared, -Ofast, -fno-builtin, -fstack-protector-strong, -fcf-protection, -mno-red-zone)'),
- ('checksum mathematics', 'gf.c: field arithmetic, generator, evaluation order, table generation, reduction, the check-word solve - rewrites that stay linear and pass the sweeps but differ somewhere structural'),
- ('the phrase as text', 'separators (ASCII space, ideographic space, mixtures, NBSP, tabs), leading/trailing/multiple separators, NFC composition of separators with neighbours, Japanese phrases with ASCII spaces, case, what exactly "a single trailing space" means'),
+ ('allocator and memory-block semantics', 'how the library uses alloc/free/memzero results: block size assumptions, alignment (the monitor gives 8-byte alignment; what about 4 or 1?), using a block after handing it to free, relying on free being a no-op for NULL only sometimes, zero-size or oversized requests, several blocks per seed, ownership transfer between seeds'),
+ ('pairwise interactions', 'behaviour that is right for every single axis but wrong for a COMBINATION of two or three: encrypted x user feature x coin, language x abbreviation x NFC, allocation failure x unsupported feature x checksum error, lang_out NULL x multi-language, re-injection x live seed x feature change'),
+ ('wiping completeness', 'secret material in places the scans may not look: copies by value of structs, compiler-generated temporaries, return-value slots, argument spill areas of callees, buffers wiped before their last use, wipes of the wrong object of the same size, wipes skipped when a length is zero, secrets passed to a dependency in a buffer that is then not wiped'),
+ ('randomness and creation', 'polyseed_create: how many random bytes are requested and in how many calls, which bits are discarded, rejection loops, what happens to the random buffer, order of clock and random source, features handling, failure paths'),
+ ('optional parameters and sentinel values', 'NULL lang_out, NULL optional dependency entries, feature masks with high bits, coin values at the enum boundaries, key sizes 0 and 1, empty phrases and passwords, polyseed_free(NULL), getters with mask 0'),
+ ('constants and tables that are not word lists', 'epoch, time step, masks, shifts, salt strings, iteration counts, header/footer constants, generator polynomial, size macros - an edit that keeps every tested value but changes a rarely reached one; also macros whose expansion lacks parentheses'),
+ ('debug versus release', 'asserts, NDEBUG-dependent code, self-tests in polyseed_inject, logging, anything that makes the assertion-enabled build and the release build differ for legal input (the harness runs both, but with different shares of the workload)'),
+ ('exploit how the harness is built', 'the harness is deterministic: its monitors rotate their modes with counters (stale errno by call number, bsearch strategy by call number, normaliser modes alternating), draws inputs from seeded generators, runs each check as fresh sharded processes, links statically except one shared-object run, and judges after each call returns. Look for a defect that hides in what such a construction systematically never produces'),
+ ('scripts and languages that share characters', 'Japanese/Chinese overlap, simplified/traditional Chinese sharing 1275 characters, Korean jamo versus syllables, Latin lists sharing words, the order in which auto-detection tries languages, what is reported in lang_out'),
+ ('the first and the last of everything', 'first/last word of a list, first/last language, first/last coefficient, first/last byte of buffers, first/last month, first/last call of a process, the last valid value before an overflow - off-by-one at an end that a sweep visits but whose consequence only shows in a later step'),
 ]
 for i, (name, desc) in enumerate(THEMES, 1):
     wt = os.path.join(root, 'wt-%02d' % i)
